@@ -57,6 +57,23 @@ type RunResult struct {
 	Violations  []ViolationRec `json:"violations"`
 	Samples     []interface{} `json:"samples"`
 	Branches    map[string]int `json:"branches,omitempty"`
+	Applicable  map[string]int `json:"applicable"` // per property: executions on which its antecedent held
+	Extra       interface{}    `json:"extra,omitempty"`
+}
+
+// judge runs the oracles of props on x, counting applicability.
+func (r *RunResult) judge(props []string, x *Exec, seen map[string]bool) {
+	if r.Applicable == nil {
+		r.Applicable = map[string]int{}
+	}
+	for _, p := range props {
+		if o := Oracles[p]; o != nil {
+			if applies(p, x) {
+				r.Applicable[p]++
+			}
+			r.violate(o(x), x, r.Job, seen)
+		}
+	}
 }
 
 type ViolationRec struct {
@@ -330,11 +347,7 @@ func replayLoopCase(fam *Family, c *loopCase, res *RunResult, rng *rand.Rand, va
 		if ok && rec.WritesConcat() != string(out) {
 			res.diverge("output is not the concatenation of the writes on %q", b)
 		}
-		for _, p := range props {
-			if o := Oracles[p]; o != nil {
-				res.violate(o(x), x, res.Job, seenV)
-			}
-		}
+		res.judge(props, x, seenV)
 	}
 }
 
@@ -534,11 +547,7 @@ func replayAttrsCase(fam *Family, c *attrsCase, res *RunResult, rng *rand.Rand, 
 				}
 			}
 		}
-		for _, p := range props {
-			if o := Oracles[p]; o != nil {
-				res.violate(o(x), x, res.Job, seenV)
-			}
-		}
+		res.judge(props, x, seenV)
 	}
 }
 
